@@ -148,5 +148,11 @@ class World(object):
         return type(o).__name__
 
     def enc(self, v):
-        """Bridge encoding; class names are the class keys of CT."""
-        return enc(v, self.fields)
+        """Bridge encoding; class names are the class keys of CT - when the object is an instance of THIS world's class
+        of that name (an instance of a same-named class of another generation is reported as foreign)."""
+        def namer(o):
+            n = type(o).__name__
+            if n == "Decimal":
+                return n
+            return n if self.cls.get(n) is type(o) else "foreign:" + n
+        return enc(v, self.fields, namer=namer)
